@@ -59,3 +59,21 @@ pub fn all() -> Vec<Prop> {
         Prop { id: "C20", level: "exploration", case: c20::case, run: c20::run, replay_reps: 1 },
     ]
 }
+
+/// (property id, case function) of the history-based properties, for the `fuzz_sim` target.
+pub fn fuzz_sim_table() -> Vec<(&'static str, fn(&mut Tape, &CaseCtx) -> CaseResult)> {
+    vec![
+        ("C02", c02::case as fn(&mut Tape, &CaseCtx) -> CaseResult),
+        ("C04", c04::case),
+        ("C05", c05::case),
+        ("C06", c06::case),
+        ("C07", c07::case),
+        ("C09", c09::case),
+        ("C10", c10::case),
+        ("C11", c11::case),
+        ("C12", c12::case),
+        ("C13", c13::case),
+        ("C14", c14::case),
+        ("C03", c03::case),
+    ]
+}
